@@ -40,11 +40,53 @@ var SchemaSuffixes = map[int][]Tok{
 	15: {},
 }
 
+// dirOpen is "@ a ( a :" - the hole that follows is the value of a directive argument.
+func dirOpen(pre ...Tok) []Tok {
+	return append(append([]Tok(nil), pre...), pt(KAt), n("a"), pt(KParenL), n("a"), pt(KColon))
+}
+
+func toks(ts ...Tok) []Tok { return ts }
+
+// SchemaHoles: one (opening, closing) pair per position of the type-system
+// grammar that holds a constant value - every directive-argument value and every
+// default value. A few symbolic tokens fill the hole; each position passes its
+// own const flag in the library, so each needs its own template.
+var SchemaHoles = [][2][]Tok{
+	{dirOpen(n("schema")), toks(pt(KParenR), pt(KBraceL), n("query"), pt(KColon), n("a"), pt(KBraceR))},
+	{dirOpen(n("scalar"), n("a")), toks(pt(KParenR))},
+	{dirOpen(n("type"), n("a")), toks(pt(KParenR), pt(KBraceL), n("a"), pt(KColon), n("a"), pt(KBraceR))},
+	{dirOpen(n("type"), n("a"), pt(KBraceL), n("a"), pt(KColon), n("a")), toks(pt(KParenR), pt(KBraceR))},
+	{toks(n("type"), n("a"), pt(KBraceL), n("a"), pt(KParenL), n("a"), pt(KColon), n("a"), pt(KEquals)), toks(pt(KParenR), pt(KColon), n("a"), pt(KBraceR))},
+	{dirOpen(n("type"), n("a"), pt(KBraceL), n("a"), pt(KParenL), n("a"), pt(KColon), n("a")), toks(pt(KParenR), pt(KParenR), pt(KColon), n("a"), pt(KBraceR))},
+	{dirOpen(n("interface"), n("a")), toks(pt(KParenR), pt(KBraceL), n("a"), pt(KColon), n("a"), pt(KBraceR))},
+	{dirOpen(n("interface"), n("a"), pt(KBraceL), n("a"), pt(KParenL), n("a"), pt(KColon), n("a")), toks(pt(KParenR), pt(KParenR), pt(KColon), n("a"), pt(KBraceR))},
+	{dirOpen(n("union"), n("a")), toks(pt(KParenR), pt(KEquals), n("a"))},
+	{dirOpen(n("enum"), n("a")), toks(pt(KParenR), pt(KBraceL), n("a"), pt(KBraceR))},
+	{dirOpen(n("enum"), n("a"), pt(KBraceL), n("a")), toks(pt(KParenR), pt(KBraceR))},
+	{dirOpen(n("input"), n("a")), toks(pt(KParenR), pt(KBraceL), n("a"), pt(KColon), n("a"), pt(KBraceR))},
+	{toks(n("input"), n("a"), pt(KBraceL), n("a"), pt(KColon), n("a"), pt(KEquals)), toks(pt(KBraceR))},
+	{dirOpen(n("input"), n("a"), pt(KBraceL), n("a"), pt(KColon), n("a")), toks(pt(KParenR), pt(KBraceR))},
+	{toks(n("directive"), pt(KAt), n("a"), pt(KParenL), n("a"), pt(KColon), n("a"), pt(KEquals)), toks(pt(KParenR), n("on"), n("FIELD"))},
+	{dirOpen(n("directive"), pt(KAt), n("a"), pt(KParenL), n("a"), pt(KColon), n("a")), toks(pt(KParenR), pt(KParenR), n("on"), n("FIELD"))},
+	{dirOpen(n("extend"), n("schema")), toks(pt(KParenR))},
+	{dirOpen(n("extend"), n("scalar"), n("a")), toks(pt(KParenR))},
+	{dirOpen(n("extend"), n("type"), n("a")), toks(pt(KParenR))},
+	{dirOpen(n("extend"), n("type"), n("a"), pt(KBraceL), n("a"), pt(KColon), n("a")), toks(pt(KParenR), pt(KBraceR))},
+	{dirOpen(n("extend"), n("interface"), n("a")), toks(pt(KParenR))},
+	{dirOpen(n("extend"), n("union"), n("a")), toks(pt(KParenR))},
+	{dirOpen(n("extend"), n("enum"), n("a")), toks(pt(KParenR))},
+	{dirOpen(n("extend"), n("input"), n("a")), toks(pt(KParenR))},
+	{dirOpen(n("extend"), n("input"), n("a"), pt(KBraceL), n("a"), pt(KColon), n("a")), toks(pt(KParenR), pt(KBraceR))},
+}
+
 func schemaStream() ([]Tok, *ast.Source) {
 	k := verifrt.Param("k", 3)
 	pi := verifrt.Param("prefix", 0)
 	pre := SchemaPrefixes[pi]
 	suf := SchemaSuffixes[pi]
+	if h := verifrt.Param("hole", -1); h >= 0 {
+		pre, suf = SchemaHoles[h][0], SchemaHoles[h][1]
+	}
 	total := len(pre) + k + len(suf)
 	verifrt.SetOpt("unwind", total+3)
 	verifrt.SetOpt("depth", 8*total+40)
